@@ -14,7 +14,8 @@ CHECKS = {
                        "are all generated. Exploration is the right level: the property quantifies over unbounded inputs "
                        "and schedules; absence of violations is evidence, not proof."),
         "level_note": ("Trusted: the harness device model and normaliser (sim/), testing/synctest's virtual clock. "
-                       "Assumes the stated preconditions (safe outputs, no cut inside an escape sequence, marker byte per command)."),
+                       "Assumes the stated preconditions (safe outputs, no cut inside an escape sequence, marker byte per command)."
+                       ' Escape grammar: CSI with up to three 0-4 digit parameters and 21 finals, ESC ( B, ESC = / > / c, BEL-terminated OSC without blanks (what the pinned pattern is documented to strip); bare CR inside lines; lines ending in a tab; commands with outer/doubled blanks (not with wrapped echoes that interleave a blank: precondition of the subsequence matcher).'),
         "technique": "property-based testing (rapid) with reference-model oracle over generated sessions, virtual time",
         "rule": ("rapid draws a full CLI session (host/prompt incl. ANSI-wrapped, banner, 1-8 commands with "
                  "0-60 safe output lines, echo style, cut plan, per-read delays, read size, read delay, search "
@@ -42,7 +43,8 @@ CHECKS = {
                        "race detector across GOMAXPROCS 1/2/4/16, checked with a stream oracle, a quiescent-depth oracle and a "
                        "porcupine linearizability check of the timed history. Concurrency is sampled, not enumerated."),
         "level_note": ("Trusted: the slice model, porcupine v1.3.0, the Go race detector. Single producer / single consumer as the "
-                       "property states; rare interleavings may not occur in the stress tier."),
+                       "property states; rare interleavings may not occur in the stress tier."
+                       ' Several taken chunks may be put back in a row; bursts of up to 40 000 chunks; every slice handed out is compared again at the end of the history.'),
         "technique": "model-based PBT (rapid) + bounded exhaustive enumeration + concurrent stress with linearizability oracle (porcupine), -race",
         "rule": ("seq: rapid histories (<=40 ops over enq/deq/all/requeue-last/depth) vs slice model, depth compared after every step; "
                  "enum: every history up to length 5 (quick) / 7 (thorough) over a 6-letter alphabet; conc: generated producer chunk list x "
@@ -67,7 +69,8 @@ CHECKS = {
                        "(2) the same replies sent by a NETCONF server model through netconf.Driver over generated read segmentations. "
                        "The thorough tier adds native coverage-guided fuzzing of the raw decoder input with the same oracle."),
         "level_note": ("Trusted: harness decoders sim.DecodeChunkedStrict/Lenient, the XML reply generator's own knowledge of what it "
-                       "generated (expected result, has-rpc-error). XML declaration only in the library's own spelling at the start of the payload."),
+                       "generated (expected result, has-rpc-error). XML declaration only in the library's own spelling at the start of the payload."
+                       ' Reply generator also varies the root start tag (namespace declarations before the message-id), uses tab/CR white space and 10 kB text nodes for the raw decoder; enumerated frames with 4-6 digit chunk sizes; a raw-bytes sub-check for the 1.0 decoder (no panic, result is a subsequence of the input); the server model answers at the end-of-message marker or only after the return that follows it.'),
         "technique": "property-based testing (rapid) + native go fuzzing; differential oracle vs strict RFC 6242 decoder; round trip through the driver",
         "rule": ("decode: reply payload x byte-level chunk partition x lead/trail LF (1.1) or EOM framing (1.0); malformed: 19 mutation classes "
                  "of a valid frame (truncate at any offset, size too big/small/zero/negative/signed/non-numeric/11 digits/huge, missing LF, "
@@ -94,7 +97,8 @@ CHECKS = {
                        "harness, parsed with encoding/xml (strict) and checked structurally; a second session without the options gives the "
                        "metamorphic baseline (options change only what they name)."),
         "level_note": ("Trusted: sim.DecodeChunkedPrefix, encoding/xml as the independent XML parser, the canonical form that equates "
-                       "<a></a>, <a> </a> and <a/>. Server answers <ok/> to everything."),
+                       "<a></a>, <a> </a> and <a/>. Server answers <ok/> to everything."
+                       ' Datastore names in mixed case; <config> roots bare, with namespace declarations, or prefixed. Message-ids need only be numbers that grow from request to request.'),
         "technique": "property-based testing (rapid): strict independent decode of the wire + structural XML oracle + metamorphic on/off relation",
         "rule": ("wire: rapid draws version x options x 1-6 operations with generated arguments; selfclosing: generated fragments through the public "
                  "ForceSelfClosingTags. Non-trivial: multi-byte content, or position >= 2 in the session, or a payload with an empty element while "
@@ -114,7 +118,8 @@ CHECKS = {
                        "XML declaration, extra attributes, session-id over the full 32-bit range or absent, or no hello at all), generated read "
                        "segmentation, echoing or not. Oracle = the table written from the statement + exact capability list and session-id + "
                        "strict parse of the client's hello + strict framing check of the first RPC in the selected and not the other framing."),
-        "level_note": "Trusted: sim.NCServer / HelloSpec renderer, encoding/xml, sim.DecodeChunkedPrefix. Capabilities contain no '&' or whitespace.",
+        "level_note": ("Trusted: sim.NCServer / HelloSpec renderer, encoding/xml, sim.DecodeChunkedPrefix. Capabilities contain no '&' or whitespace."
+                       ' Prefixes [a-z][a-z0-9_]{0,4}; 0-70 extra capabilities; the missing hello is plain garbage or another message that quotes capability elements.'),
         "technique": "property-based testing (rapid) over an exhaustive 12-cell configuration table x generated hellos, table oracle + wire checks",
         "rule": ("cell (0..11) x generated hello x cut plan x echo x read size. Non-trivial: prefixed element names, or >= 4 capabilities, or a "
                  "preferred version given. Distinct = sha1(case)."),
@@ -133,7 +138,8 @@ CHECKS = {
                        "timeout error; a reply sent in time is returned (nothing lost); a late reply never surfaces in a later call."),
         "level_note": ("Trusted: sim.NCServer, the virtual clock, the transit bound used to size timeouts (a reply counts as 'sent before "
                        "the deadline' only if it also had time to pass the two polling loops). Timeouts are 5-250 ms virtual rather than "
-                       "seconds because the RPC wait loop polls every 5 us."),
+                       "seconds because the RPC wait loop polls every 5 us."
+                       ' Histories of up to 40 calls (one in six cases); replies may carry namespace declarations before the message-id; ids need only be strictly increasing numbers, a reply must carry the id its own request had on the wire.'),
         "technique": "property-based testing (rapid) of generated call/server-behaviour histories with an ownership invariant, virtual time",
         "rule": ("history of {now, late, never} behaviours x version x echo x cut plan x delays. Non-trivial: a late/never reply followed by a "
                  "successful call, or echo on, or >= 4 RPCs. Distinct = sha1(case)."),
@@ -155,7 +161,8 @@ CHECKS = {
                        "transport never closed, or goroutines left after teardown are failures."),
         "level_note": ("Trusted: testing/synctest leak and deadlock detection, the Go race detector, sim.Pipe. Orders are forced only at the "
                        "instrumented points; between two points the Go scheduler decides. For the 'stays blocked' transport the harness "
-                       "releases the parked read after Close returned and then requires the library to unwind completely."),
+                       "releases the parked read after Close returned and then requires the library to unwind completely."
+                       ' Sessions may be preceded by complete open/operation/close rounds on the same driver (generic, network), drivers may carry an on-close function that sends a command, NETCONF operations may be subscription rpcs with pushed notifications. Close bound: the pinned grace formula + 10 s of virtual time.'),
         "technique": "property-based testing (rapid) of generated states x forced hook orderings, child-process isolation, virtual-time bounds, runtime leak detection, -race",
         "rule": ("driver x state x close behaviour x read delay x skew x 0-3 ordering constraints (thorough: all ordered cross-role pairs enumerated). "
                  "Non-trivial: any state other than idle, or a feasible ordering constraint, or a second Close. Distinct = sha1(case)."),
@@ -176,7 +183,8 @@ CHECKS = {
                        "connection (verif hook) for volume; thorough adds native fuzzing of the opening bytes through tier B."),
         "level_note": ("Trusted: the reference negotiator. An escaped IAC may surface as 0, 1 or 2 0xFF bytes (the statement only fixes the data "
                        "that follows it). Sub-negotiation (SB ... SE) is outside the quantifier and not generated. Tier A uses wall-clock gaps "
-                       "well below the negotiation deadline."),
+                       "well below the negotiation deadline."
+                       ' Data bytes 0x00-0xFE, openings of up to 64 tokens, banners of a few kilobytes.'),
         "technique": "property-based testing (rapid) + native go fuzzing against a reference telnet negotiator; loopback TCP and in-memory hook tiers",
         "rule": ("token list (neg/cmd/esc/data) x split plan x gaps x socket timeout x read size. Non-trivial: >=1 negotiation followed by data, or "
                  "a two-byte command / escaped IAC present. Distinct = sha1(case)."),
@@ -246,7 +254,8 @@ CHECKS = {
                        "level, every applicable (current, target) pair is navigated, close runs the on-close steps. Thorough runs every pair; "
                        "quick runs all static obligations, a 1-in-5 deterministic sample of the pairs and rapid-drawn pairs with option layers."),
         "level_note": ("Trusted: the harness's own YAML structs and merge rule for variants (c17.effective), the regexp sampler (every sample "
-                       "is verified with the real compiled pattern), the claim computation. Levels with equal claim sets count as one."),
+                       "is verified with the real compiled pattern), the claim computation. Levels with equal claim sets count as one."
+                       ' Generated variants may switch the driver type (generic/network) and define generic on-open/on-close; every advertised name must load from the embedded definitions even when the working directory holds a file of that name.'),
         "technique": "exhaustive enumeration + property-based sampling (rapid) against a definition-derived device model; regexp-syntax sampler for canonical prompts",
         "rule": ("static: one obligation per (kind, subject); pairs/dynamic: (file, variant, start level, current, target, option layer). "
                  "Non-trivial: pair at tree distance >= 2, or an authenticated edge on the path, or a variant (dynamic); every static obligation. Distinct = sha1(case)."),
@@ -313,7 +322,8 @@ CHECKS = {
                        "echo - the return is written only after the echo was delivered unless eager; (3) authenticated escalation with a "
                        "device that asks / grants without asking / refuses without asking / asks then rejects - the secret reaches the "
                        "device only in its password state, only after the password prompt bytes were delivered, never at a command prompt."),
-        "level_note": "Trusted: the device models and the delivered-bytes recorder in sim.Pipe, the virtual clock.",
+        "level_note": ("Trusted: the device models and the delivered-bytes recorder in sim.Pipe, the virtual clock."
+                       ' Completion patterns are the prompt or a refusal line the device prints before its prompt; non-final events may lack an expected response (then the prompt is awaited); the plain command is sent with fuzzy or exact input matching.'),
         "technique": "property-based testing (rapid) with a delivered-before-written recorder invariant over paced device scripts, virtual time",
         "rule": ("interactive: events x delays x early completion x cut plan; command: late echo x eager; escalation: device behaviour x secret x delays. "
                  "Non-trivial: >=2 events, a hidden event or early completion; a late echo; a non-asking or rejecting device. Distinct = sha1(case)."),
@@ -384,7 +394,8 @@ CHECKS = {
                        "sent, the device catches up and the next command returns its own result. SendWithCallbacks and ReadDelay 0 run "
                        "in a real-time sub-check with one-sided bounds."),
         "level_note": ("Trusted: device models, dry-run length measurement (deterministic in virtual time), testing/synctest. For multi-step "
-                       "operations only the upper bound (max of the applicable timeouts) is asserted because every step arms its own timer."),
+                       "operations only the upper bound (max of the applicable timeouts) is asserted because every step arms its own timer."
+                       ' Operations also: the way down (configuration to exec), Open with an on-open function, every exported RPC method (incl. the subscription rpc) for the NETCONF call without per-operation timeout; operation options exact matching and interim prompt pattern; after a timed-out interactive send nothing more may be typed when the device catches up; slack = 5 % of the timeout in force; callback sends are also bounded above (wall clock, three confirmations).'),
         "technique": "fault enumeration of stall points driven by rapid and exhaustive k loops; virtual-time bounds; recovery clause; real-time sub-tier for spinning code",
         "rule": ("stall: op x timeout mode x k (per-mille of the measured exchange) x cut plan x read size; all-k: op x mode x plan x every k. "
                  "Non-trivial: 0 < k < L, or a per-operation override. Distinct = sha1(case)."),
@@ -407,7 +418,8 @@ CHECKS = {
                        "loss (far below its timeout), must not report success unless every needed byte had been delivered (then with the "
                        "full result), every later call must fail, and the child must exit cleanly (a panic in any goroutine kills it)."),
         "level_note": ("Trusted: device models, dry-run measurement, child-process exit status as the no-panic oracle, testing/synctest."
-                       ' Idle losses are generated with and without unread bytes (an unsolicited message plus a redrawn prompt) sitting in the queue when the loss is noticed.'),
+                       ' Idle losses are generated with and without unread bytes (an unsolicited message plus a redrawn prompt) sitting in the queue when the loss is noticed.'
+                       ' Read errors are real error values (EIO, ECONNRESET, deadline exceeded, unexpected EOF, closed pipe, bare and wrapped); Open with an on-open function; callback sends that lose the connection (wall clock, three confirmations).'),
         "technique": "fault enumeration of loss points x loss kinds driven by rapid and exhaustive k loops; child-process isolation; virtual-time promptness bound",
         "rule": ("loss: op x kind x k x idle x further ops x cut plan; loss-all-k: op x kind x plan x every k. Non-trivial: 0 < k < L, or a "
                  "non-EOF kind, or NETCONF, or idle. Distinct = sha1(case)."),
